@@ -92,17 +92,17 @@ theorem oidOk_iff (r : Bytes) : oidOk r = true ↔ IsOid .lib r := by
 /-! ### from the grammar to the parser -/
 
 theorem parse_of_G {f : Filter} {s : Bytes} (h : G .lib f s) :
-    (Filter.parse s).map Tag.toTlv = some (toTlv f) := by
+    (Filter.parseCore s).map Tag.toTlv = some (toTlv f) := by
   obtain ⟨t, ht, htl⟩ := Filter.parse_complete (Or.inl h)
   rw [(Filter.parse_some_iff s t).mpr ht]; simp [htl]
 
 theorem parse_of_GItem {f : Filter} {s : Bytes} (h : GItem .lib f s) :
-    (Filter.parse s).map Tag.toTlv = some (toTlv f) := by
+    (Filter.parseCore s).map Tag.toTlv = some (toTlv f) := by
   obtain ⟨t, ht, htl⟩ := Filter.parse_complete (Or.inr h)
   rw [(Filter.parse_some_iff s t).mpr ht]; simp [htl]
 
 theorem parse_of_GLib {f : Filter} {s : Bytes} (h : Spec.Filter.GLib f s) :
-    (Filter.parse s).map Tag.toTlv = some (toTlv f) := by
+    (Filter.parseCore s).map Tag.toTlv = some (toTlv f) := by
   obtain ⟨t, ht, htl⟩ := Filter.parse_complete h
   rw [(Filter.parse_some_iff s t).mpr ht]; simp [htl]
 
@@ -153,10 +153,10 @@ end Filter
 /-- a parenthesised item at top level, with the tag the item parser returned -/
 theorem parse_of_item_exact {b : Bytes} {t : Tag} {c : UInt8} {x : Bytes}
     (hi : Filter.item (b ++ [0x29]) = .ok t [0x29]) (eb : b = c :: x) (hc : c ≠ 0x26 ∧ c ≠ 0x7C ∧ c ≠ 0x21) :
-    Filter.parse ([0x28] ++ b ++ [0x29]) = some t := by
+    Filter.parseCore ([0x28] ++ b ++ [0x29]) = some t := by
   have hf := Filter.filter_of_item (rest := []) ([0x28] ++ b ++ [0x29]).length hi eb hc
   rw [(Filter.parse_some_iff _ _)]
-  unfold Filter.parseO Filter.filtexpr
+  unfold Filter.parseCoreO Filter.filtexpr
   rw [Filter.alt_left (by simpa using hf)]
   rfl
 
@@ -166,7 +166,7 @@ theorem attr_head_ok {a : Bytes} (ha : IsAttrDesc .lib a) :
   refine ⟨c, x, ea, ?_, ?_, ?_⟩ <;> (intro e0; subst e0; revert hc; decide)
 
 theorem parse_eq_exact {a v sv : Bytes} (ha : IsAttrDesc .lib a) (hv : Spec.Filter.RVal v sv) :
-    Filter.parse ([0x28] ++ a ++ [0x3D] ++ sv ++ [0x29]) =
+    Filter.parseCore ([0x28] ++ a ++ [0x3D] ++ sv ++ [0x29]) =
       some (.sequence 2 3 [.octetString 0 4 a, .octetString 0 4 v]) := by
   obtain ⟨c, x, ea, hne⟩ := attr_head_ok ha
   have hi := Filter.item_of_eq (Filter.eq_exact (r := [0x29]) ha hv rfl)
@@ -178,7 +178,7 @@ theorem parse_nonEq_exact {a v sv : Bytes} {c : UInt8} {id : Nat} (ha : IsAttrDe
     (hv : Spec.Filter.RVal v sv) (hc : Filter.isAlnumHyphen c = false ∧ c ≠ 0x2E ∧ c ≠ 0x3B) (hc2 : c ≠ 0x3D)
     (hop : ∀ rest, Filter.opTag (c :: 0x3D :: rest) = .ok [c, 0x3D] rest)
     (hid : Filter.filtertag [c, 0x3D] = some id) :
-    Filter.parse ([0x28] ++ a ++ [c, 0x3D] ++ sv ++ [0x29]) =
+    Filter.parseCore ([0x28] ++ a ++ [c, 0x3D] ++ sv ++ [0x29]) =
       some (.sequence 2 id [.octetString 0 4 a, .octetString 0 4 v]) := by
   obtain ⟨c0, x, ea, hne⟩ := attr_head_ok ha
   have hattr : Filter.attributedescription (a ++ (c :: 0x3D :: (sv ++ [0x29]))) = .ok a _ :=
@@ -190,13 +190,13 @@ theorem parse_nonEq_exact {a v sv : Bytes} {c : UInt8} {id : Nat} (ha : IsAttrDe
   simpa [Filter.octets] using this
 
 theorem parse_ge_exact {a v sv : Bytes} (ha : IsAttrDesc .lib a) (hv : Spec.Filter.RVal v sv) :
-    Filter.parse ([0x28] ++ a ++ [0x3E, 0x3D] ++ sv ++ [0x29]) =
+    Filter.parseCore ([0x28] ++ a ++ [0x3E, 0x3D] ++ sv ++ [0x29]) =
       some (.sequence 2 5 [.octetString 0 4 a, .octetString 0 4 v]) :=
   parse_nonEq_exact ha hv (by simp [Filter.isAlnumHyphen, Filter.isAlnum, Filter.isAlpha, Filter.isDigit]) (by decide)
     (fun rest => Filter.alt_left (Filter.tag_append [0x3E, 0x3D] rest)) (by simp [Filter.filtertag])
 
 theorem parse_le_exact {a v sv : Bytes} (ha : IsAttrDesc .lib a) (hv : Spec.Filter.RVal v sv) :
-    Filter.parse ([0x28] ++ a ++ [0x3C, 0x3D] ++ sv ++ [0x29]) =
+    Filter.parseCore ([0x28] ++ a ++ [0x3C, 0x3D] ++ sv ++ [0x29]) =
       some (.sequence 2 6 [.octetString 0 4 a, .octetString 0 4 v]) :=
   parse_nonEq_exact ha hv (by simp [Filter.isAlnumHyphen, Filter.isAlnum, Filter.isAlpha, Filter.isDigit]) (by decide)
     (fun rest => by
@@ -205,7 +205,7 @@ theorem parse_le_exact {a v sv : Bytes} (ha : IsAttrDesc .lib a) (hv : Spec.Filt
       exact Filter.alt_left (Filter.tag_append [0x3C, 0x3D] rest)) (by simp [Filter.filtertag])
 
 theorem parse_approx_exact {a v sv : Bytes} (ha : IsAttrDesc .lib a) (hv : Spec.Filter.RVal v sv) :
-    Filter.parse ([0x28] ++ a ++ [0x7E, 0x3D] ++ sv ++ [0x29]) =
+    Filter.parseCore ([0x28] ++ a ++ [0x7E, 0x3D] ++ sv ++ [0x29]) =
       some (.sequence 2 8 [.octetString 0 4 a, .octetString 0 4 v]) :=
   parse_nonEq_exact ha hv (by simp [Filter.isAlnumHyphen, Filter.isAlnum, Filter.isAlpha, Filter.isDigit]) (by decide)
     (fun rest => by
@@ -330,7 +330,7 @@ theorem substr_G {d : Dialect} {a : Bytes} (ha : IsAttrDesc d a) (ini fin : Opti
 
 /-- an empty `any` piece puts two asterisks side by side: no such string is accepted -/
 theorem substr_empty_any_rejected (a : Bytes) (ini fin : Option Bytes) (pre post : List Bytes) :
-    Filter.parse (substrText a ini (pre ++ [] :: post) fin) = none := by
+    Filter.parseCore (substrText a ini (pre ++ [] :: post) fin) = none := by
   obtain ⟨X, e⟩ := star_any_ends_star pre
   have : substrText a ini (pre ++ [] :: post) fin =
       ([0x28] ++ a ++ [0x3D] ++ ldapEscapeOpt ini ++ X) ++
